@@ -482,7 +482,7 @@ def _bind_args(helper, call, is_method_call):
     elif is_method_call:
         if not params:
             return None
-        params = params[1:]      # self / cls is the receiver
+        recv_param, params = params[0], params[1:]   # self / cls
     if any(isinstance(x, ast.Starred) for x in call.args) or any(
             k.arg is None for k in call.keywords):
         return None
@@ -507,6 +507,20 @@ def _bind_args(helper, call, is_method_call):
                 m[p] = defaults[p]
             else:
                 return None
+    if is_method_call and "staticmethod" not in deco and isinstance(
+            call.func, ast.Attribute):
+        # the receiver: `Class.helper(...)` of a classmethod binds `cls`
+        recv = call.func.value
+        if not (isinstance(recv, ast.Name) and recv.id == recv_param):
+            if not isinstance(recv, ast.Name):
+                return None
+            if "classmethod" in deco and recv.id == "self":
+                recv = ast.Call(func=ast.Name("type", ast.Load()),
+                                args=[ast.Name("self", ast.Load())],
+                                keywords=[])
+            if recv_param in m:
+                return None
+            m[recv_param] = recv
     return m
 
 
